@@ -6,6 +6,7 @@ callables at check time (DESIGN 3.9 item 5).
 """
 import z3
 from pyvc.values import qforall
+from .values import qforall
 from .values import (V, Int, Str, Bool, SeqV, SeqS, NONE, ABSENT, TRUE, FALSE, mk_bool, mk_int, mk_str,
                      mk_seq, keys_of, clsof, EMPTY_MAP)
 from .state import Unsupported, Static, ExcVal, SIter
@@ -123,6 +124,10 @@ class Stubs:
                             patterns=[K[j]]))
         st.assume(qforall([j, j2], z3.Implies(z3.And(j >= 0, j < j2, j2 < z3.Length(K)), K[j] != K[j2]),
                             patterns=[z3.MultiPattern(K[j], K[j2])]))
+        j3 = z3.Int('kw!j3')
+        st.assume(qforall([k], z3.Implies(z3.Select(m, k) != ABSENT,
+                                            z3.Exists([j3], z3.And(j3 >= 0, j3 < z3.Length(K), K[j3] == k))),
+                            patterns=[z3.Select(m, k)]))
         st.ghost.setdefault('$keymaps', [])
         st.ghost['$keymaps'] = st.ghost['$keymaps'] + [m]
 
